@@ -92,6 +92,20 @@ def probe_projection(D, N, seed):
         "agree": float(np.max(np.abs(p1 - p2))) / sc,
         "idempotent": float(np.max(np.abs(np.asarray(sp.make_incompressible(jnp.asarray(p1))) - p1))) / sc,
     }
+    # indexing="xy" (the numpy.meshgrid convention: channel 0 <-> axis 1, channel 1 <-> axis 0, the others unchanged):
+    # the divergence in that convention, computed with plain numpy FFTs, vanishes, and the result is the "ij" projection
+    # of the field with channels 0 and 1 exchanged
+    ax = [1, 0] + list(range(2, D))
+    pxy = np.asarray(sp.make_incompressible(jnp.asarray(u), indexing="xy"))
+    kk = np.fft.fftfreq(N, 1 / N)
+    div = np.zeros((N,) * D, dtype=complex)
+    for c in range(D):
+        sh = [1] * D
+        sh[ax[c]] = N
+        div = div + 1j * kk.reshape(sh) * np.fft.fftn(pxy[c])
+    res["div_xy"] = float(np.max(np.abs(div))) / (float(np.max(np.abs(np.fft.fftn(u[0])))) * (N / 2) + 1e-300)
+    sw = u[ax]
+    res["xy_is_swapped_ij"] = float(np.max(np.abs(pxy[ax] - np.asarray(sp.make_incompressible(jnp.asarray(sw)))))) / sc
     res["ok"] = all(v <= 1e-10 for v in res.values())
     return res
 
